@@ -8,14 +8,20 @@ character of a dumped value is printable ASCII - so no character of a text, attr
 or comment can act as a line boundary of `str.splitlines()` or as whitespace for
 `str.strip()`: one action per output line.
 
-Not proved yet (see DESIGN.md): `parseScript (formatScript as) = .ok as` for the whole line
-grammar.  The model of that grammar (`Model/TextFormat.lean`) is compared with the code by
-unit U6 on every run.
+Proved as well (helper lemmas in `Proofs/TextFormat.lean`): `parseScript (formatScript as) = .ok as`
+for the whole line grammar - `str.splitlines`, the bracket / continuation logic, the JSON-aware
+field splitter, `str.strip`, the dispatch on the action name, `int()` and `json.loads` - for every
+list of actions (any length) whose node paths are in the generated subset and whose names contain
+no comma, double quote or white space (`ActionOK`, a decidable guard; texts, attribute values and
+comments are unrestricted).  The model of the grammar (`Model/TextFormat.lean`) is compared with
+the code by unit U6 on every run.
 -/
 import XmlDiffModel.Proofs.Json
-import XmlDiffModel.Model.TextFormat
+import XmlDiffModel.Proofs.TextFormat
+import XmlDiffModel.Model.Patch
 
 namespace XmlDiffModel
+open TF
 
 /-- `json.loads(json.dumps(v)) == v` -/
 theorem C02_load_dump (v : Option Str) : jsonLoad (jsonDump v) = some v := jsonLoad_jsonDump v
@@ -34,6 +40,41 @@ theorem C02_dump_no_line_break (v : Option Str) : ∀ c ∈ jsonDump v, isBreak 
   · intro h; rw [h] at h1; exact absurd h1 (by decide)
   · intro h; rw [h] at h1; exact absurd h1 (by decide)
   all_goals omega
+
+/-- The parser reads back exactly the script the 'diff' formatter wrote: every action, in order, with its
+texts / values / comments (any characters, `None` included), positions and node paths. -/
+theorem C02_parse_format (as : List Action) (h : ∀ a ∈ as, ActionOK a) :
+    parseScript (formatScript as) = .ok as := parseScript_formatScript as h
+
+/-- One action per line: the number of lines of the output is the number of actions. -/
+theorem C02_one_line_per_action (as : List Action) (h : ∀ a ∈ as, ActionOK a) :
+    splitLines (formatScript as) = as.map formatAction := by
+  unfold formatScript
+  exact splitLines_joinLines _ (by
+    intro l hl
+    obtain ⟨a, ha, rfl⟩ := List.mem_map.mp hl
+    exact formatAction_line a (h a ha))
+
+/-- Hence the xmldiff -> xmlpatch pipeline applies the same actions as the in-memory API: whatever the patcher does
+with the parsed script is what it does with the script itself. -/
+theorem C02_pipeline (qn : QName) (as : List Action) (h : ∀ a ∈ as, ActionOK a) (s : PState) :
+    (match parseScript (formatScript as) with
+      | .ok as' => some (runShipped qn s as')
+      | .error _ => none) = some (runShipped qn s as) := by
+  rw [C02_parse_format as h]
+
+/-- Non-vacuity of the guard: a script with all thirteen kinds of action, texts with commas, quotes, backslashes,
+brackets, line separators and a non-BMP character, satisfies `ActionOK`. -/
+example :
+    let p1 : Path := [⟨.name "doc".toList, none⟩, ⟨.name "{urn:x}a".toList, some 2⟩]
+    let p2 : Path := [⟨.name "doc".toList, none⟩, ⟨.comment, some 1⟩]
+    let p3 : Path := [⟨.star, some 3⟩]
+    ∀ a ∈ ([.deleteNode p1, .insertNode p1 "b".toList 0, .renameNode p1 "x:y".toList, .moveNode p1 p3 12,
+        .updateTextIn p1 (some "a, \"b\"]\\\n[\u2028😀".toList), .updateTextAfter p2 none,
+        .updateAttrib p1 "k".toList ", ".toList, .deleteAttrib p1 "{urn:x}k".toList, .insertAttrib p1 "k".toList [],
+        .renameAttrib p1 "k".toList "l".toList, .insertComment p1 3 (some " c, ] ".toList),
+        .insertNamespace "x".toList "urn:x".toList, .deleteNamespace "x".toList] : List Action), ActionOK a := by
+  decide +kernel
 
 /-- Non-vacuity / sanity: the critical characters of the property. -/
 example : jsonDump (some "a, \"b\"\\\n 😀".toList) = "\"a, \\\"b\\\"\\\\\\n\\u2028\\ud83d\\ude00\"".toList := by
